@@ -1,0 +1,144 @@
+// Verification hooks. Compiled only with the cargo feature `verif_hooks` (off by default).
+//
+// Two observation points that are invisible at the public API boundary:
+//  * work counters (+ an optional per-thread "fuel" limit) for generator derivation and
+//    hash_to_scalar calls, so a monitor can bound the work an entry point does by a logical
+//    step count instead of wall-clock time;
+//  * a log of every draw the library makes from its production randomness source.
+//
+// All state is thread-local (the library never spawns threads), except a global sequence number
+// that orders draws across threads.
+
+use rand::RngCore;
+use std::cell::{Cell, RefCell};
+use std::sync::atomic::{AtomicU64, Ordering};
+
+/// Marker contained in the panic message when the armed fuel is exhausted.
+pub const FUEL_MARKER: &str = "VERIF_FUEL_EXHAUSTED";
+
+/// Kind of counted work.
+#[derive(Clone, Copy, Debug, PartialEq, Eq)]
+pub enum Work {
+    /// one generator derived (one hash_to_curve)
+    Generator,
+    /// one hash_to_scalar call
+    HashToScalar,
+}
+
+/// Snapshot of the work counters of the current thread.
+#[derive(Clone, Copy, Debug, Default, PartialEq, Eq)]
+pub struct WorkCounts {
+    /// generators derived
+    pub generators: u64,
+    /// hash_to_scalar calls
+    pub h2s_calls: u64,
+    /// total bytes hashed by hash_to_scalar
+    pub h2s_bytes: u64,
+}
+
+thread_local! {
+    static COUNTS: Cell<WorkCounts> = Cell::new(WorkCounts { generators: 0, h2s_calls: 0, h2s_bytes: 0 });
+    static FUEL: Cell<Option<u64>> = Cell::new(None);
+    static DRAWS: RefCell<Vec<Draw>> = RefCell::new(Vec::new());
+    static RECORDING: Cell<bool> = Cell::new(false);
+}
+
+static SEQ: AtomicU64 = AtomicU64::new(0);
+
+/// Count one unit of work; panics with [`FUEL_MARKER`] when an armed fuel limit is exceeded.
+pub fn work(kind: Work, bytes: usize) {
+    COUNTS.with(|c| {
+        let mut v = c.get();
+        match kind {
+            Work::Generator => v.generators += 1,
+            Work::HashToScalar => {
+                v.h2s_calls += 1;
+                v.h2s_bytes += bytes as u64;
+            }
+        }
+        c.set(v);
+    });
+    if kind == Work::Generator {
+        FUEL.with(|f| {
+            if let Some(left) = f.get() {
+                if left == 0 {
+                    f.set(None);
+                    panic!("{}", FUEL_MARKER);
+                }
+                f.set(Some(left - 1));
+            }
+        });
+    }
+}
+
+/// Reset the counters of the current thread and arm (or disarm) the generator fuel.
+pub fn reset_work(fuel: Option<u64>) {
+    COUNTS.with(|c| c.set(WorkCounts::default()));
+    FUEL.with(|f| f.set(fuel));
+}
+
+/// Read the counters of the current thread.
+pub fn work_counts() -> WorkCounts {
+    COUNTS.with(|c| c.get())
+}
+
+/// One draw from the production randomness source.
+#[derive(Clone, Debug)]
+pub struct Draw {
+    /// global sequence number (orders draws across threads)
+    pub seq: u64,
+    /// call site label
+    pub site: &'static str,
+    /// the raw bytes handed to the consumer
+    pub bytes: Vec<u8>,
+}
+
+/// Start/stop recording draws on the current thread.
+pub fn record_draws(on: bool) {
+    RECORDING.with(|r| r.set(on));
+}
+
+/// Take (and clear) the draws recorded on the current thread.
+pub fn take_draws() -> Vec<Draw> {
+    DRAWS.with(|d| std::mem::take(&mut *d.borrow_mut()))
+}
+
+/// Wrapper that forwards to the real generator and logs what it returned.
+pub struct ObservedRng<R: RngCore>(pub R, pub &'static str);
+
+impl<R: RngCore> ObservedRng<R> {
+    fn log(&self, bytes: &[u8]) {
+        if RECORDING.with(|r| r.get()) {
+            let seq = SEQ.fetch_add(1, Ordering::SeqCst);
+            DRAWS.with(|d| {
+                d.borrow_mut().push(Draw {
+                    seq,
+                    site: self.1,
+                    bytes: bytes.to_vec(),
+                })
+            });
+        }
+    }
+}
+
+impl<R: RngCore> RngCore for ObservedRng<R> {
+    fn next_u32(&mut self) -> u32 {
+        let v = self.0.next_u32();
+        self.log(&v.to_le_bytes());
+        v
+    }
+    fn next_u64(&mut self) -> u64 {
+        let v = self.0.next_u64();
+        self.log(&v.to_le_bytes());
+        v
+    }
+    fn fill_bytes(&mut self, dest: &mut [u8]) {
+        self.0.fill_bytes(dest);
+        self.log(dest);
+    }
+    fn try_fill_bytes(&mut self, dest: &mut [u8]) -> Result<(), rand::Error> {
+        let r = self.0.try_fill_bytes(dest);
+        self.log(dest);
+        r
+    }
+}
